@@ -8,7 +8,7 @@
 From Coq Require Import List NArith ZArith Bool Arith.
 From Atlas Require Import Base.Bytes Base.Stutter Exec.ExecModel Exec.ExecProofs Exec.StepProofs Exec.PendingModel Exec.PendingProofs
   Exec.RunModel Exec.TxModel Exec.TxProofs Exec.RunProofs Exec.CrashProofs Exec.DryModel Exec.DryProofs
-  Exec.FkModel Exec.FkProofs.
+  Exec.FkModel Exec.FkProofs Exec.FkRerunProofs.
 Import ListNotations.
 
 Section C13.
@@ -284,6 +284,40 @@ Proof.
 Qed.
 End C13fk.
 
+(** Fix and re-run after a commit refused by the foreign-key check. Setting as in
+    C13_fix_rerun: the directory is [dskip ++ dir] (sorted; [dir] from the last
+    checkpoint on), here without failing statements ([clean]: the only failure is
+    the check), directives accepted by the global mode [g]; [c0] a file boundary
+    with literal rows (e.g. the empty database); `migrate apply [n]` ends with
+    "foreign key mismatch" in ANY mode, for any engine ([violations], [fk]). Then
+    (a) the state left [c1] is again a file boundary [Bd] with literal rows [LK]
+    after k >= k0 files -- nothing of the refused file, no partial revision; and
+    (b) once the check no longer fires ([violations'], [fk']: the data was repaired
+    or foreign keys are off), `migrate apply` from [c1] and the same command from
+    [c0] both succeed and end in literally the same state [final_db]: journal = the
+    plan exactly once, one completed revision per file. *)
+Theorem C13_fk_fix_rerun :
+  forall (hash : Type) (hash_eqb : hash -> hash -> bool) (HS : bytes -> hash),
+  (forall a b, hash_eqb a b = true <-> a = b) ->
+  forall (dskip dir : list tfile),
+  sorted_files (map tf_file dskip ++ map tf_file dir) ->
+  from_last_ckpt (map tf_file dskip ++ map tf_file dir) = map tf_file dir ->
+  forall violations fk g n (c0 : db hash) k0 c1,
+  clean dir -> valid g dir -> Bd hash HS dir c0 k0 -> LK hash dir (d_tbl c0) k0 ->
+  apply_run_fk hash hash_eqb HS violations fk g n (dskip ++ dir) c0 = (FFkMismatch, c1) ->
+  (exists k, k0 <= k /\ Bd hash HS dir c1 k /\ LK hash dir (d_tbl c1) k) /\
+  forall violations' fk', (forall t, commit_mismatch hash violations' fk' t = false) ->
+  exists o2 o3,
+    apply_run_fk hash hash_eqb HS violations' fk' g 0 (dskip ++ dir) c1 = (FOut o2, final_db hash dir) /\
+    (o2 = ADone \/ o2 = APend PNoPending) /\
+    apply_run_fk hash hash_eqb HS violations' fk' g 0 (dskip ++ dir) c0 = (FOut o3, final_db hash dir) /\
+    (o3 = ADone \/ o3 = APend PNoPending).
+Proof.
+  exact (fun hash hash_eqb HS Hspec dskip dir Hs Hf violations fk g n c0 k0 c1 Hcl Hval HB HL H =>
+    conj (fk_mismatch_resume hash hash_eqb HS Hspec dskip dir Hs Hf violations fk g n c0 k0 c1 Hcl Hval HB HL H)
+         (fk_fix_rerun_lemma hash hash_eqb HS Hspec dskip dir Hs Hf violations fk g n c0 k0 c1 Hcl Hval HB HL H)).
+Qed.
+
 (** `schema apply` with the check computed from the engine state
     ([apply_changes_fk]: viol = violationsDiff (violations before) (violations after
     the whole plan) is not empty): in any transactional mode whatever fails, at any
@@ -322,6 +356,7 @@ Print Assumptions C13_fk_commit_file.
 Print Assumptions C13_fk_simulation.
 Print Assumptions C13_fk_check_off.
 Print Assumptions C13_schema_apply_fk_atomic.
+Print Assumptions C13_fk_fix_rerun.
 
 (** Non-vacuity: two files, the second one failing at its second statement. *)
 Definition s (n : N) : bytes := [40%N; n; 41%N].
@@ -400,3 +435,26 @@ Example C13_fk_nonvacuous :
   (let '(o, d', _) := apply_changes_fk ex_violations TxFile [s 3; s 4] None (mkSdb [s 1] true) in
    o = SFkMismatch /\ d' = mkSdb [s 1] true).
 Proof. vm_compute. repeat split; reflexivity. Qed.
+
+(** Fix and re-run after a refused commit, non-vacuity: file mode, the second file is
+    refused; with the data repaired (no new violation reported) the re-run from the
+    state left completes and ends in the state of a run that was never refused. *)
+Example C13_fk_fix_rerun_nonvacuous :
+  forallb (fun g =>
+    let '(o, c1) := apply_run_fk bytes bytes_eqb (fun b => b) ex_violations true g 0 ex_dir_ok ex_db0 in
+    let '(o2, c2) := apply_run_fk bytes bytes_eqb (fun b => b) (fun _ => [ex_pre]) true g 0 ex_dir_ok c1 in
+    match o, o2 with
+    | FFkMismatch, FOut ADone =>
+        bytes_eqb (concat (d_journal c2)) (concat [s 1; s 2; s 3; s 4]) && (length (d_journal c2) =? 4) &&
+        forallb (fun r => (r_applied r =? r_total r) && negb (r_err r)) (d_tbl c2) && (length (d_tbl c2) =? 2)
+    | _, _ => false
+    end) [TxFile; TxAll] = true /\
+  clean ex_dir_ok /\ valid TxFile ex_dir_ok /\ valid TxAll ex_dir_ok /\
+  Bd bytes (fun b => b) ex_dir_ok ex_db0 0 /\ LK bytes ex_dir_ok (d_tbl ex_db0) 0.
+Proof.
+  split; [vm_compute; reflexivity|].
+  split; [intros f [<-|[<-|[]]]; reflexivity|].
+  split; [intros f [<-|[<-|[]]]; discriminate|].
+  split; [intros f [<-|[<-|[]]]; discriminate|].
+  split; [apply Bd_empty|apply LK_empty].
+Qed.
